@@ -9,6 +9,8 @@ Soundness is stated as a reduction to collision finding over an EXPLICIT finite 
 recomputes), so that no unsatisfiable "H is injective" hypothesis is needed:
 
   C10_complete     every honest proof verifies to (hash of the trie, value of the block's owner) — all tries, all blocks
+  C10_complete_model   the same on the implementation-shaped model, bytes included: GetBlockProof on a trie in any state
+                   (dirty, clean, collapsed to references) + VerifyBlockProof of the returned bytes
   C10_sound        (def) accepted proof for the trusted root ⇒ it returns the true owner's value, or a collision is
                    exhibited among the listed inputs
   C10_sound_partial  soundness under `Faithful` (node kinds and claimed child weights on the path are the true ones —
@@ -19,6 +21,7 @@ recomputes), so that no unsatisfiable "H is injective" hypothesis is needed:
 -/
 import Verif.Lemmas.WmptSound
 import Verif.Lemmas.WmptSpec
+import Verif.Lemmas.WmptProofBytes
 namespace Verif.Props.C10
 open Verif.Wmpt
 
@@ -38,6 +41,28 @@ theorem C10_complete (H : Bytes → Bytes) (hlen : ∀ x, (H x).length = 32) (t 
     rw [he] at hv
     simp [verifyProof] at hv
   simp [verifyPairs, hne, hv, hh]
+
+/-- Completeness on the implementation-shaped model, bytes included: for a trie in ANY state (in-memory nodes, dirty or
+    clean, references into storage; `RepS`/`Proper`/`UpDirty` are the invariants every operation maintains) representing
+    the spec tree `ts` with 32-byte keys, `GetBlockProof(b)` returns the owner's key and proof bytes, and
+    `VerifyBlockProof(b, proof)` on those bytes yields (hash ts, owner's value). `hsz`: the CBOR envelope's size limits. -/
+theorem C10_complete_model (H : Bytes → Bytes) (hlen : ∀ x, (H x).length = 32) (t : WT) (ts : PT) (b : Nat)
+    (hdb : t.hasDb = true) (hrep : RepS H t.store t.root ts) (hp : Proper t.root) (hud : RepMore.UpDirty t.root)
+    (hu : Uniform 64 ts) (hok : RepOps.PTOK ts) (hb1 : 1 ≤ b) (hb : b ≤ ts.weight)
+    (hsz : ∀ p ∈ ts.proofPairs H b, (Cbor.encBase p).length < 2 ^ 64) (hcnt : (ts.proofPairs H b).length < 2 ^ 64) :
+    ∃ key proof v, (blockProof H t b).2 = .ok (key, proof) ∧
+      ownerSpec ts.entries b = some (RepMore.keybytesToHex key, v) ∧
+      verifyBlockProof H proof b = .ok (ts.hash H, v) := by
+  obtain ⟨k, v, key, ho, _, hk, _, hbp⟩ := blockProof_rep' hlen t ts 64 b hdb hrep hp hud hu (by decide) (by decide) hok hb1 hb
+  obtain ⟨k', v', ho', hv'⟩ := C10_complete H hlen ts b hb1 hb hok.1
+  rw [owner_eq_ownerSpec ts b hb1 hb] at ho
+  rw [ho] at ho'
+  simp only [Option.some.injEq, Prod.mk.injEq] at ho'
+  obtain ⟨e1, e2⟩ := ho'
+  subst e1; subst e2
+  refine ⟨key, _, v, hbp, by rw [hk]; exact ho, ?_⟩
+  rw [verifyBlockProof_encoded H hlen ts b hok hsz hcnt]
+  exact hv'
 
 /-- non-vacuity of `C10_complete`: the two-key trie `wt` below, toy hash, block 3 -/
 example : ∃ k v, ownerSpec (PT.branch (fun i =>
